@@ -92,7 +92,7 @@ fn violation_for(h: &EncHistory, check: &EncCheck, msg: String, sig: String) -> 
         |x: &EncHistory| {
             let mut sc = EScratch::new();
             let mut st = Stats::new();
-            (check.verdict)(x, &mut sc, &mut st, true).is_some()
+            (check.verdict)(x, &mut sc, &mut st, true).map_or(false, |(_, sig)| fw::known_open_id(&sig).is_none())
         },
     );
     let mut sc = EScratch::new();
@@ -169,8 +169,12 @@ pub fn run_enc_check(ctx: &Ctx, check: &EncCheck) -> Stats {
                                     h.align = (ti + pi) & 15;
                                     st.evals += 1;
                                     if let Some((msg, sig)) = (check.verdict)(&h, &mut sc, st, true) {
-                                        st.violations.push(violation_for(&h, check, msg, sig));
-                                        return;
+                                        if let Some(id) = fw::known_open_id(&sig) {
+                                            st.known_hit(id);
+                                        } else {
+                                            st.violations.push(violation_for(&h, check, msg, sig));
+                                            return;
+                                        }
                                     }
                                     st.sample(1, || h.to_json());
                                 }
